@@ -6,6 +6,7 @@ stepped and its complete observation compared with the implementation's (`K` lin
 predicates that need no model are evaluated on the implementation's observations (`A` lines).
 -/
 import Bourse.Model.Env
+import Bourse.Model.Agents
 import Bourse.Spec.Audit
 import Driver.Parse
 
@@ -197,11 +198,44 @@ structure EHist where
   started : Bool
   neverDisabled : Bool
   everOverfull : Bool := false
+  simAgents : List RandomAgents := []
+  simSteps : Nat := 0
+  simSeed : Nat := 0
 
 def parseTicks (s : String) : Option (List Nat) := (s.splitOn ",").mapM String.toNat?
 
+def parseFrac (s : String) : Option (Nat × Nat) :=
+  match s.splitOn "/" with
+  | [a, b] => do pure (← a.toNat?, ← b.toNat?)
+  | [a] => do pure (← a.toNat?, 1)
+  | _ => none
+
+/-- `R:<n>:<lo>:<hi>:<vlo>:<vhi>:<tick>:<num>/<den>` or `R@<asset>:…`. -/
+def parseRandomAgent (s : String) : Option RandomAgents :=
+  match s.splitOn ":" with
+  | [hd, n, lo, hi, vlo, vhi, tick, rate] => do
+      let asset ← match hd.splitOn "@" with
+        | ["R"] => some 0
+        | ["R", a] => a.toNat?
+        | _ => none
+      let (num, den) ← parseFrac rate
+      pure { asset := asset, orders := List.replicate (← n.toNat?) none, tickLo := ← lo.toNat?, tickHi := ← hi.toNat?,
+             volLo := ← vlo.toNat?, volHi := ← vhi.toNat?, tickSize := ← tick.toNat?, rateNum := num, rateDen := den }
+  | _ => none
+
 def newEHist (toks : List String) : Option EHist :=
   match toks with
+  | hid :: profile :: "sim" :: kind :: seed :: t0 :: ticks :: step :: trading :: steps :: agents =>
+    if kind == "sim" || kind == "msim" then do
+      let seed ← seed.toNat?; let t0 ← t0.toNat?; let ticks ← parseTicks ticks; let step ← step.toNat?
+      let trading ← parseBool trading; let steps ← steps.toNat?
+      let ags ← agents.mapM parseRandomAgent
+      pure { id := hid, profile := profile, kind := "sim", ticks := ticks, nLevels := 10, stepSize := step,
+             env := MEnv.new t0 ticks step trading 10, market := Market.new t0 ticks trading,
+             rng := Xoro.seed (UInt64.ofNat seed), prevB := [], prevE := [], opIdx := 0, nSteps := 0,
+             kDead := false, pendingE := none, pendingM := none, started := false, neverDisabled := trading,
+             simAgents := ags, simSteps := steps, simSeed := seed }
+    else none
   | [hid, profile, kind, seed, t0, ticks, step, trading, l] =>
     if kind == "env" || kind == "menv" then do
       let seed ← seed.toNat?; let t0 ← t0.toNat?; let ticks ← parseTicks ticks; let step ← step.toNat?
@@ -222,6 +256,31 @@ def newEHist (toks : List String) : Option EHist :=
 /-- Result of handling one observation line: the new history state and the report lines. -/
 def handleEnvObs (h : EHist) (toks : List String) : EHist × List String × List String :=
   let isEnv := h.kind != "market"
+  if h.kind == "sim" then
+    if !h.started then ({ h with started := true }, [], [])
+    else
+      match parseEnvLine true toks with
+      | none =>
+        -- the real run panicked (or printed something unparsable)
+        match simRunner h.env h.simAgents h.simSeed h.simSteps with
+        | none => (h, [], ["sim:both_abort"])
+        | some _ => (h, [s!"K {h.id} 0 fault:impl=PANIC,model=ok tr=1 op=run"], ["sim:panic"])
+      | some ln =>
+        match simRunner h.env h.simAgents h.simSeed h.simSteps with
+        | none => (h, [s!"K {h.id} 0 fault:impl=ok,model=FAULT tr=1 op=run"], ["sim:model_abort"])
+        | some (_, e', _) =>
+          let mo := e'.market.books.map (·.observe h.nLevels)
+          let fields : List String :=
+            ((mo.zip ln.books).flatMap fun (m, i) => diffObs m i) ++
+            (if mo.length != ln.books.length then ["n_assets"] else []) ++
+            (((List.range h.ticks.length).map (modelEnvObs e')).zip ln.envs).flatMap (fun (m, i) => diffEnvObs m i)
+          let nOrders := (ln.books.map (·.orders.length)).sum
+          let nTrades := (ln.books.map (·.trades.length)).sum
+          let tags := ["sim:run"] ++ (if nOrders > 0 then ["sim:with_orders"] else []) ++
+                      (if nTrades > 0 then ["sim:with_trades"] else [])
+          ({ h with nSteps := h.simSteps },
+           if fields.isEmpty then [] else [s!"K {h.id} 0 {",".intercalate fields.eraseDups} tr=1 op=run"], tags)
+  else
   match parseEnvLine isEnv toks with
   | none => (h, [s!"BAD envobs {h.id} {h.opIdx}"], [])
   | some ln =>
@@ -273,6 +332,23 @@ def handleEnvObs (h : EHist) (toks : List String) : EHist × List String × List
             if ln.sh != "ok" then aud := aud ++ [s!"A SH {h.id} {h.opIdx} shadow_{ln.sh} {tail}"]
             if !ln.rngck then aud := aud ++ [s!"A RNG {h.id} {h.opIdx} generator_not_advanced_by_exactly_one_shuffle {tail}"]
             let nSteps := match op with | .step => h.nSteps + 1 | _ => h.nSteps
+            -- the observed processing order must be the shuffle's permutation: a placement queued at index k
+            -- and processed at position pos (perm[pos] = k) arrives at exactly start + pos
+            match op, ln.perm with
+            | .step, some perm =>
+              let startT := (h.prevB.head?.map (·.t)).getD 0
+              let bad := (h.env.queue.zipIdx).any fun ((a, ev), k) =>
+                match ev with
+                | .new id =>
+                  match (h.prevB[a]?).bind (·.orders[id]?), (ln.books[a]?).bind (·.orders[id]?), perm.idxOf? k with
+                  | some po, some no, some pos =>
+                    -- the first placement instruction for a New order places it
+                    po.status == .new && no.status != .new && no.arr != startT + pos &&
+                      !((h.env.queue.take k).any fun (a', ev') => a' == a && ev' == Event.new id)
+                  | _, _, _ => false
+                | _ => false
+              if bad then aud := aud ++ [s!"A ORD {h.id} {h.opIdx} arrival_time_is_not_start_plus_shuffle_position {tail}"]
+            | _, _ => pure ()
             for a in List.range ln.books.length do
               match h.prevB[a]?, ln.books[a]?, h.prevE[a]?, ln.envs[a]? with
               | some pb, some nb, some pe, some ne =>
